@@ -20,17 +20,18 @@ InitInP(diag) ==
           /\ InitRest
           /\ \E x \in T_True, b \in BOOLEAN, cm \in Decls, ie \in Decls, p \in Paths :
                \E c1 \in T_Rep[x] : \E c2 \in (IF diag THEN {c1} ELSE T_Rep[x]) :
+               \E o \in (IF p \in {"moddir", "reload"} THEN {"none", "future1", "modblock"} ELSE {"none"}) :
                  cell = [id |-> 0, form |-> "bytes", x |-> x, bom |-> b, cm |-> cm, ie |-> ie, c |-> <<c1, c2>>,
-                         path |-> p, oe |-> None, errs |-> "strict"]
+                         path |-> p, oe |-> None, errs |-> "strict", opt |-> o]
 InitOutP(diag) ==
            /\ InitRest
            /\ \E c1 \in (IF diag THEN {"A"} ELSE T_Base), oe \in {None} \cup T_Out, e \in T_Errs :
                 \/ \E c2 \in T_Syms :
                      cell = [id |-> 0, form |-> "str", x |-> "utf_8", bom |-> FALSE, cm |-> None, ie |-> None,
-                             c |-> <<c1, c2>>, path |-> "bytes", oe |-> oe, errs |-> e]
+                             c |-> <<c1, c2>>, path |-> "bytes", oe |-> oe, errs |-> e, opt |-> "none"]
                 \/ \E c2 \in T_Base, p \in (IF diag THEN {"moddir"} ELSE Paths) :
                      cell = [id |-> 0, form |-> "bytes", x |-> "utf_8", bom |-> FALSE, cm |-> None, ie |-> None,
-                             c |-> <<c1, c2>>, path |-> p, oe |-> oe, errs |-> e]
+                             c |-> <<c1, c2>>, path |-> p, oe |-> oe, errs |-> e, opt |-> "none"]
 Report == /\ Finished /\ Emit /\ PrintT(ToJson(Observation)) /\ pc' = "reported"
           /\ UNCHANGED <<cell, enc, res, text, content, modfile, loaded, src, uni, out>>
 MCNext == Next \/ Report
